@@ -552,8 +552,28 @@ func (e *Engine) havocAllHeap(st *State, why string) {
 	}
 	sort.Strings(names)
 	for _, n := range names {
+		if e.immutableRegion(n) {
+			continue
+		}
 		e.havocRegion(st, n)
 	}
+}
+
+// immutableRegion: regions that no goroutine changes once the object is shared (fields declared
+// `frozen`, channel capacities, the Locker of a cond): a coarse havoc need not forget them.
+func (e *Engine) immutableRegion(name string) bool {
+	if name == "chan.cap" || name == "Cond.L" {
+		return true
+	}
+	base := name
+	for _, suf := range []string{".len", ".nil", ".at"} {
+		base = strings.TrimSuffix(base, suf)
+	}
+	parts := strings.SplitN(base, ".", 2)
+	if len(parts) == 2 && e.guardOf(parts[0], parts[1]).Kind == "frozen" {
+		return true
+	}
+	return false
 }
 
 // fieldRegionName names the region of field f of struct type owner.
